@@ -6,6 +6,7 @@ mod matrix;
 mod core;
 mod rec;
 mod repl;
+mod shared;
 mod vstore;
 
 fn main() {
@@ -24,6 +25,7 @@ fn main() {
         "repl" => repl::run(&args[2..]),
         "golden" => checks::golden(&args[2..]),
         "matrix" => matrix::run(&args[2..]),
+        "shared" => shared::run(&args[2..]),
         "treecheck" => checks::treecheck(&args[2..]),
         "wirecheck" => checks::wirecheck(&args[2..]),
         "foreign" => checks::foreign(&args[2..]),
